@@ -44,3 +44,14 @@ CASES += [
       "                if self.current_tag is not None:\n                    return piece[self.current_tag]",
       "                if self.current_tag:\n                    return piece[self.current_tag]"),
 ]
+
+CASES += [
+    m("set_resolution relabels before converting", "C19-E",
+      "            elif res_old > res_new:\n                self._convert_resolution(res_old, res_new)",
+      "            elif res_old > res_new:\n                self.storage_resolution = resolution\n                self._convert_resolution(res_old, res_new)"),
+    m("conversion loop labels the level before the one converted to", "C19-E",
+      "                self.storage_resolution = _resolutions[end]", "                self.storage_resolution = _resolutions[start]"),
+    t("first addition guard with the label chosen first", 
+      "            self._d__data = {}\n            self.storage_initialized =  True\n            if resolution is not None:\n                self.storage_resolution = resolution",
+      "            if resolution is not None:\n                self.storage_resolution = resolution\n            self._d__data = {}\n            self.storage_initialized =  True"),
+]
